@@ -129,13 +129,25 @@ def problems_of(doc):
         got, notes = provn_reader.read(text)
     except ReaderError as e:
         return ["the PROV-N grammar rejects the text: %s" % str(e)[:300]], text, None
-    if notes["ambiguous_bundle_ids"]:
-        return [], text, "ambiguous"
+    problems = []
+    # content (bundle identifiers read leniently: with the bundle's own declarations, else the document's) ...
     if {k: set(v) for k, v in got.items()} == {k: set(v) for k, v in want.items()} and got != want:
-        return [{"multiplicity": strict.diff(want, got)}], text, None
-    if got != want:
-        return [{"diff": strict.diff(want, got)}], text, None
-    return [], text, None
+        problems.append({"multiplicity": strict.diff(want, got)})
+    elif got != want:
+        problems.append({"diff": strict.diff(want, got)})
+    return problems, text, notes
+
+
+def scope_problems(notes):
+    """The bundle identifiers stand before the bundle's own prefix declarations: they are names of the document's scope."""
+    out = []
+    if notes and notes["bundle_ids_outside_document_scope"]:
+        out.append("the bundle identifier %r cannot be resolved with the document's prefix declarations (only with the bundle's own, "
+                   "where it denotes <%s>)" % tuple(notes["bundle_ids_outside_document_scope"][0]))
+    if notes and notes["ambiguous_bundle_ids"]:
+        out.append("the bundle identifier %r denotes <%s> under the bundle's declarations but <%s> under the document's"
+                   % tuple(notes["ambiguous_bundle_ids"][0]))
+    return out
 
 
 def judge(ctx, idx, case):
@@ -150,11 +162,7 @@ def judge(ctx, idx, case):
         common.drain_monitors(ctx, idx, case)
         return
     common.tally_doc(ctx, doc)
-    problems, text, flag = problems_of(doc)
-    if flag == "ambiguous":
-        ctx.count("skipped.ambiguous_bundle_id")
-        common.drain_monitors(ctx, idx, case)
-        return
+    problems, text, notes = problems_of(doc)
     ctx.count("texts_parsed_and_compared")
     if text is not None:
         if '"""' in text:
@@ -180,7 +188,13 @@ def judge(ctx, idx, case):
                 problems.append("serialize(format='provn') differs from get_provn()")
         except Exception as e:
             problems.append("serialize(format='provn') raised %s" % type(e).__name__)
-    if problems:
+    if not problems and scope_problems(notes):
+        fid = findings.bundle_scope_finding(ID, st, notes)
+        if fid:
+            ctx.known_finding(fid, scope_problems(notes)[0][:200], {"idx": idx})
+        else:
+            ctx.violation(idx, "PROV-N: %s" % scope_problems(notes)[0][:300], case, {"problems": scope_problems(notes), "text": (text or "")[:5000]})
+    elif problems:
         fid = findings.attribute(ID, case, lambda c: problems_of(common.build(c["ops"]).doc)[0])
         if fid:
             ctx.known_finding(fid, str(problems[0])[:200], {"idx": idx})
